@@ -1,29 +1,24 @@
-import DryocVerif.Bytes
-import DryocVerif.Spec.Poly1305
-import DryocVerif.Model.Poly1305
-import DryocVerif.Model.Utils
+import Driver.Common
+import Driver.Hash
+import Driver.Box
+import Driver.Stream
 /-
 Line-protocol driver.  One request per line:  `<id> <op> <arg>…` (byte strings
 in hex, `-` = empty).  One answer per line: `<id>\t<model answer>\t<spec answer>`
-(`n/a` where there is no such artefact for the op).
+(`n/a` where there is no such artefact for the op, `bad-op` if the op is unknown).
 -/
-open DryocVerif
+open DryocVerif Driver
 
-def hexArgs (args : List String) : Option (List Bytes) := args.mapM ofHex
-
-def okHex (b : Bytes) : String := "ok " ++ hexOrDash b
-
-def handle (op : String) (args : List String) : String × String :=
-  match op, hexArgs args with
-  | "poly1305", some [k, m] =>
-      (okHex (Model.Poly1305.mac k m), okHex (Spec.Poly1305.mac k m))
-  | "poly1305_inc", some (k :: cs) =>
-      (okHex (Model.Poly1305.macChunks k cs), okHex (Spec.Poly1305.mac k cs.flatten))
-  | "poly1305_verify", some [k, m, t] =>
-      ((if t = Model.Poly1305.mac k m then "ok" else "err"), (if t = Spec.Poly1305.mac k m then "ok" else "err"))
-  | "increment", some [b] =>
-      (okHex (Model.Utils.incrementBytes b), okHex (toLE b.length (le b + 1)))
-  | _, _ => ("bad-op", "bad-op")
+def handle (op : String) (args : List String) : Ans :=
+  match Hash.handle op args with
+  | some a => a
+  | none =>
+  match Box.handle op args with
+  | some a => a
+  | none =>
+  match Stream.handle op args with
+  | some a => a
+  | none => ("bad-op", "bad-op")
 
 partial def loop (h : IO.FS.Stream) (out : IO.FS.Stream) : IO Unit := do
   let line ← h.getLine
